@@ -352,6 +352,12 @@ for _nu, _tier, _to in ((3, "quick", 900),):
     bounds="0..%d candidates on record at arbitrary distinct bit positions of a 4-word input block, each finished or unfinished; the parser finds a block header ending at an arbitrary bit position" % _nu,
     assumptions=["codec entry points replaced by contract stubs (parse() stub: block header found at the chosen position)", "scheduler lock and I/O threads stubbed; REAL heap helpers of process.c (the confirmation logic depends on the queue order)"])
 
+add("selector_clamp", "h_tree.c", "h_selector_clamp", {"C06": "quick", "C05": "quick"}, defines=["-DNA=5"], extra_src=["crctab.c"],
+    cbmc=["--unwind", "24", "--unwindset", "make_tree.7:1026,make_tree.8:1026"], backend="kissat", timeout=600, mem_gb=6,
+    functions=["src/decode.c:retrieve (bound on used selectors)", "src/decode.c:make_tree"], witnesses=["clamp_observed", "surplus_selectors_declared"],
+    bounds="PRODUCTION constants; declared selector count symbolic 1..32767; the bound retrieve() applies is compared with ceil((MAX_BLOCK_SIZE+1)/50)",
+    assumptions=["retrieve() resumed with the last table complete and a first group selecting an unusable (oversubscribed) table, so it returns at once"])
+
 # ------------------------------------------------------------------------------- expand.c scheduler: rely/guarantee steps (conservation)
 RGX_ASM = ["codec entry points replaced by stubs returning any result their interface allows; heap helpers replaced by a bag with correct head extraction (real helpers: heap_ops)",
            "RG: at every lock acquisition counters, queue sizes and the parser token are arbitrary subject to INV of h_expand_rg.c (rely); C12 assumed",
